@@ -11,7 +11,7 @@ def decChunks (s : String) : Option (List Bytes) :=
 def ops : List Op := [
   -- fields: sources, template, data (ignored by the model); chunks of the fault-free run; room; failAt (-1 = none)
   ("execw", fun f => match f with
-    | [_, _, _, chunks, room, failAt] =>
+    | _ :: _ :: _ :: chunks :: room :: failAt :: _ =>
       match decChunks chunks, room.toNat?, failAt.toInt? with
       | some cs, some r, some fa =>
         let st : FaultState := { room := r, calls := 0, failAt := if fa < 0 then none else some fa.toNat }
